@@ -76,6 +76,29 @@ class C17(Prop):
     )
     assumptions = ["np.asarray / polars constructors deliver the numbers they are given (library behaviour, exercised here)"]
 
+    def __init__(self):
+        self.finding_matchers = {"c17_numpy_integer_bin_width": self.numpy_integer_bin_width}
+
+    @staticmethod
+    def numpy_integer_bin_width(case, io):
+        """numpy >= 2.1: np.histogram_bin_edges keeps the bin width of an integer-typed array at >= 1, so the automatic bin
+        methods give an integer-typed feature other bins than the same numbers as floats"""
+        if case.get("stream") != "bias" or case.get("method") in (None, "quantile", "uniform"):
+            return False
+        feat = conv(case["feature"], case["container"])
+        import polars as pl
+
+        arr = feat.to_numpy() if isinstance(feat, pl.Series) else np.asarray(feat)
+        if arr.dtype.kind not in "iu":
+            return False
+        import warnings
+
+        with warnings.catch_warnings():
+            warnings.simplefilter("ignore")
+            ei = np.histogram_bin_edges(arr, bins=case["method"])
+            ef = np.histogram_bin_edges(arr.astype(float), bins=case["method"])
+        return len(ei) != len(ef) or not np.allclose(ei, ef)
+
     def generate(self, tier, rng):
         N = 1500 if tier == "quick" else 25000
         for k in range(N):
@@ -145,6 +168,14 @@ class C17(Prop):
             else:
                 c["feature"] = [rng.randint(0, 6) for _ in range(n)]
                 c["n_bins"] = rng.randint(2, 4)
+                if ep == "bias" and "rows2d" not in c and rng.random() < 0.25:
+                    # numpy's automatic bin-width rules on a whole-numbered feature with a small range and many rows
+                    n2 = rng.choice([40, 64, 100])
+                    cap = 100 if ("int8" in c["container"] or "uint8" in c["container"]) else 12
+                    c.update(method=rng.choice(["sturges", "auto", "sqrt", "rice"]), y=[rng.randint(1, cap) for _ in range(n2)],
+                             z=[rng.randint(1, cap) for _ in range(n2)], w=None if c["w"] is None else [rng.randint(1, 4) for _ in range(n2)],
+                             feature=[rng.randint(0, 3) for _ in range(n2)])
+                    c.pop("zcontainer", None)
             yield c
 
     def call(self, case, container):
@@ -198,7 +229,7 @@ class C17(Prop):
         if ep == "bias":
             from model_diagnostics.calibration import compute_bias
 
-            return {"vals": flat(compute_bias(y, z, feature=feat, weights=w, n_bins=case["n_bins"], bin_method="quantile"))}
+            return {"vals": flat(compute_bias(y, z, feature=feat, weights=w, n_bins=case["n_bins"], bin_method=case.get("method", "quantile")))}
         from model_diagnostics.calibration import compute_marginal
 
         X = np.column_stack([np.asarray(case["feature"], dtype=float), np.ones(len(case["y"]))])
